@@ -155,8 +155,11 @@ func runPluginInstall() int {
 			must(os.WriteFile(filepath.Join(src, extraFile[f]), []byte("extra # origin: src\n"), 0644))
 		}
 		if in.Src.Subdir {
-			must(os.MkdirAll(filepath.Join(src, "sub"), 0755))
-			must(os.WriteFile(filepath.Join(src, "sub", "inner.txt"), []byte("inner # origin: src\n"), 0644))
+			// a sub-directory (never installed): named anything, or like the source directory itself
+			sd := []string{"sub", filepath.Base(src), "notation-p.d"}[mix(*flagSeed, c.ID, "sd")%3]
+			must(os.MkdirAll(filepath.Join(src, sd), 0755))
+			must(os.WriteFile(filepath.Join(src, sd, "inner.txt"), []byte("inner # origin: src\n"), 0644))
+			must(os.WriteFile(filepath.Join(src, sd, "notation-p"), []byte("#!/bin/sh\nexit 9 # a file of the same name as the candidate, one level down\n"), 0755))
 		}
 		pluginPath := src
 		if in.Src.Shape == "file" {
